@@ -19,6 +19,14 @@ pub fn any_endpoint_pair() -> (IpAddr, IpAddr) {
     }
 }
 
+/// Every family combination (v4/v4, v4/v6, v6/v4, v6/v6): the filter API takes two independent
+/// `IpAddr`s, so mixed pairs are in its domain even though no IP packet produces them.
+pub fn any_endpoint_pair_mixed() -> (IpAddr, IpAddr) {
+    let a = if kani::any() { IpAddr::V4(any_v4()) } else { IpAddr::V6(any_v6()) };
+    let b = if kani::any() { IpAddr::V4(any_v4()) } else { IpAddr::V6(any_v6()) };
+    (a, b)
+}
+
 /// E6: replacement for `alloc::fmt::format` in harnesses whose assertions do not read formatted
 /// strings (error messages are built with `format!` on symbolic values otherwise).
 pub fn stub_format(_args: core::fmt::Arguments<'_>) -> String {
